@@ -38,7 +38,7 @@ func c01Round5(c *Ctx, ix *Index) {
 	if fn := c.needFn("C01.restart", "consensus/cometbft/abci.(*applicationState).NewContext"); fn != nil {
 		inst := fname(fn) + ":block-execution contexts carry the executing block's time"
 		var arm *ssa.BasicBlock
-		for _, b := range fn.Blocks {
+		for _, b := range blocksIP(fn) {
 			for _, in := range b.Instrs {
 				if fa, ok := in.(*ssa.FieldAddr); ok && fieldKey(fa.X.Type(), fa.Field) == "consensus/cometbft/abci.applicationState.blockCtx" {
 					arm = b
@@ -563,7 +563,7 @@ func c10Round5(c *Ctx) {
 			}
 		}
 		var heads []*ssa.If
-		for _, b := range fn.Blocks {
+		for _, b := range blocksIP(fn) {
 			for _, in := range b.Instrs {
 				if bo, ok := in.(*ssa.BinOp); ok && strings.Contains(vstr(bo), "SuspendedRuntimes(") && strings.Contains(vstr(bo), "builtin.len(") {
 					if refs := bo.Referrers(); refs != nil {
@@ -594,7 +594,7 @@ func c10Round5(c *Ctx) {
 	// after one with a key, crash BeginBlock on every node at every epoch transition).
 	if fn := c.needFn("C10.nilerr", "consensus/cometbft/apps/keymanager/secrets.generateStatus"); fn != nil {
 		n, bad := 0, ""
-		for _, b := range fn.Blocks {
+		for _, b := range blocksIP(fn) {
 			for _, in := range b.Instrs {
 				u, ok := in.(*ssa.UnOp)
 				if !ok || u.Op.String() != "*" {
